@@ -11,6 +11,11 @@ namespace C17
 structure St where
   m : State := {}
   sentCount : Nat → Nat := fun _ => 0     -- impl side: results seen per waiter
+  nreq : Nat := 0                          -- impl side: requests made so far
+  wtor : List (Nat × Nat) := []            -- request → torrent
+  evicted : List Nat := []                 -- torrents whose blob was evicted since it last became complete (impl obs)
+  staleW : List Nat := []                  -- split requests created while the impl reported the blob cached
+  implCa : String := ""                    -- the implementation's last `ca=` flags
 
 def ntor : Nat := 2
 
@@ -49,7 +54,8 @@ def stObs (s : State) : List String :=
       s!"h{h}=g{c.gen}:c{boolTok c.complete}:{ws}"
   tors ++ ["n=" ++ listTok (sortStrs (s.notices.map fun (h, g) => s!"h{h}g{g}")),
            "stopped=" ++ boolTok s.stopped,
-           "ca=" ++ String.join ((List.range ntor).map fun h => boolTok (s.cached h))]
+           "ca=" ++ String.join ((List.range ntor).map fun h => boolTok (s.cached h)),
+           "pc=" ++ listTok (((List.range s.nextW).filter fun w => (s.snap w).isSome).map fun w => s!"w{w}")]
 
 /-- property predicates on the implementation's sends of one operation -/
 def monitorSends (s : St) (impl : List String) : St × List String :=
@@ -61,8 +67,11 @@ def monitorSends (s : St) (impl : List String) : St × List String :=
       | some w =>
         let n := acc.1.sentCount w + 1
         let st := { acc.1 with sentCount := fun k => if k = w then n else acc.1.sentCount k }
+        let key := if w ∈ acc.1.staleW then "success-from-stale-torrent-object"
+          else if (match acc.1.wtor.find? (·.1 = w) with | some (_, h) => decide (h ∈ acc.1.evicted) | none => false) = true then "success-after-eviction"
+          else "success-without-blob"
         let pf := (if n = 2 then [s!"side=impl key=waiter-answered-twice {wt} got a second result ({r})"] else []) ++
-                  (if r = "ok" ∧ ca = "0" then [s!"side=impl key=success-without-blob {wt} was told ok while the blob is not in the cache"] else [])
+                  (if r = "ok" ∧ ca = "0" then [s!"side=impl key={key} {wt} was told ok while the blob is not in the cache"] else [])
         (st, acc.2 ++ pf)
       | none => acc
     | _ => acc) (s, [])
@@ -76,30 +85,105 @@ def monitorFin (impl : List String) : List String :=
 
 def step (s : St) (kind : String) (args impl : List String) : Option (St × StepOut) :=
   if kind = "st" then
-    some (s, { obs := stObs s.m, branch := "st" })
+    -- "at rest ⇒ every request has exactly one result", judged on the implementation's own status: no event
+    -- waits (pc=-), and it is stopped or no notice is in flight (n=-) and every control it holds is complete
+    let g (k : String) := (kv? impl k).getD "-"
+    let ctrlsDone := (List.range ntor).all fun h =>
+      let v := g s!"h{h}"
+      v = "-" ∨ (v.splitOn ":").getD 1 "" = "c1"
+    let rest := g "pc" = "-" ∧ (g "stopped" = "1" ∨ (g "n" = "-" ∧ ctrlsDone))
+    let pf := if rest ∧ (kv? impl "stopped").isSome then
+        ((List.range s.nreq).filter fun w => s.sentCount w = 0).map fun w =>
+          s!"side=impl key=waiter-unanswered-at-rest w{w} has no result although the scheduler is at rest"
+      else []
+    some ({ s with implCa := g "ca" }, { obs := stObs s.m, branch := if rest then "st.rest" else "st.busy", propfails := pf })
   else if kind = "fin" then
     let ans := (List.range s.m.nextW).map fun w => s!"w{w}:{(s.m.results w).length}"
     some (s, { obs := ["answered=" ++ listTok ans], branch := "fin", propfails := monitorFin impl })
   else if kind ≠ "op" then none else
+  -- API-level ghost for the two known findings (from the operations and the implementation's answers only)
+  let s := match args with
+    | [rq, ht] =>
+      match hash? ht with
+      | some h =>
+        if rq = "req" ∨ rq = "creq" then
+          let wasCached := (s.implCa.toList.getD h '0') = '1'
+          { s with wtor := (s.nreq, h) :: s.wtor, staleW := if rq = "creq" ∧ wasCached then s.nreq :: s.staleW else s.staleW }
+        else if rq = "evict" ∧ impl.head? = some "evicted" then { s with evicted := h :: s.evicted }
+        else if rq = "finish" ∧ impl.head? = some "ok" then { s with evicted := s.evicted.filter (· ≠ h) }
+        else s
+      | none => s
+    | _ => s
+  -- applying a request's event tells success to that request only (every other waiter it answers is one of a
+  -- torrent it removes: never "ok"); success for waiting requests comes from completion notices alone
+  let own : Option Nat := match args with
+    | ["req", _] => some s.nreq
+    | ["apply", wt] => pref? 'w' wt
+    | _ => none
+  let foreignOk := match own with
+    | none => []
+    | some k => ((match kv? impl "sends" with | some t => list? t | none => []).filterMap fun (t : String) =>
+        match t.splitOn ":" with
+        | [wt, "ok", _] => if pref? 'w' wt = some k then none else
+            some s!"side=impl key=success-told-by-another-request {wt} was told ok while the event of w{k} was applied"
+        | _ => none)
   let (s, pfs) := monitorSends s impl
+  let pfs := pfs ++ foreignOk
   let fin (m' : State) (first : List String) (br : String) : Option (St × StepOut) :=
     some ({ s with m := m' }, { obs := first ++ [sendsTok s.m m'], branch := br, propfails := pfs })
   match args with
   | ["adv", d] => do
     let _ ← d.toNat?
     fin s.m [] "adv"
-  | ["req", "hx"] =>
+  | [rq, "hx"] =>
+    if rq ≠ "req" ∧ rq ≠ "creq" then none else
+    let s := { s with nreq := s.nreq + 1 }
+    -- Download of a blob the tracker does not know must return ErrTorrentNotFound (the agent's HTTP handler maps
+    -- exactly this value to 404)
+    let want := s!"w{s.m.nextW}:notfound:0"
+    let pfs := match kv? impl "sends" with
+      | some t => if t = want then pfs else pfs ++ [s!"side=impl key=missing-blob-not-reported-notfound w{s.m.nextW} got {t}"]
+      | none => pfs
+    let fin := fun (m' : State) (first : List String) (br : String) =>
+      (some ({ s with m := m' }, { obs := first ++ [sendsTok s.m m'], branch := br, propfails := pfs }) : Option (St × StepOut))
     fin (KrakenModel.SchedWaiters.step true s.m .requestMissing) [s!"w{s.m.nextW}"] "req.missing"
   | ["req", ht] => do
     let h ← hash? ht
     let br := if s.m.stopped then "req.stopped" else match s.m.ctrl h with
-      | some c => if c.complete then "req.complete" else "req.join"
+      | some c => if c.complete && !s.m.cached h then "req.evicted" else if c.complete then "req.complete" else "req.join"
       | none => if s.m.cached h then "req.cached" else "req.new"
-    fin (KrakenModel.SchedWaiters.step true s.m (.request h)) [s!"w{s.m.nextW}"] br
+    let s := { s with nreq := s.nreq + 1 }
+    some ({ s with m := KrakenModel.SchedWaiters.step true s.m (.request h) },
+          { obs := [s!"w{s.m.nextW}", sendsTok s.m (KrakenModel.SchedWaiters.step true s.m (.request h))], branch := br, propfails := pfs })
+  | ["creq", ht] => do
+    let h ← hash? ht
+    let s := { s with nreq := s.nreq + 1 }
+    let m' := KrakenModel.SchedWaiters.step true s.m (.create h)
+    some ({ s with m := m' }, { obs := [s!"w{s.m.nextW}", sendsTok s.m m'], branch := if s.m.stopped then "creq.stopped" else "creq", propfails := pfs })
+  | ["apply", wt] => do
+    let w ← pref? 'w' wt
+    let r := match s.m.snap w with
+      | none => "none"
+      | some _ => if s.m.stopped then "refused" else "applied"
+    let br := match s.m.snap w with
+      | none => "apply.none"
+      | some (h, sc) => if s.m.stopped then "apply.refused" else match s.m.ctrl h with
+        | some c => if c.complete && !sc then "apply.evicted" else if c.complete then "apply.complete" else "apply.join"
+        | none => if sc && !s.m.cached h then "apply.stale-complete" else if sc then "apply.cached" else "apply.new"
+    fin (KrakenModel.SchedWaiters.step true s.m (.apply w)) [r] br
+  | ["evict", ht] => do
+    let h ← hash? ht
+    let r := if s.m.cached h then "evicted" else "none"
+    let br := if s.m.cached h then (match s.m.ctrl h with | some c => if c.waiters.isEmpty then "evict.held" else "evict.window" | none => "evict.free") else "evict.none"
+    fin (KrakenModel.SchedWaiters.step true s.m (.evict h)) [r] br
+  | ["inc", ht] => do
+    let h ← hash? ht
+    if s.m.stopped then fin s.m ["stopped"] "inc.stopped" else
+    fin (KrakenModel.SchedWaiters.step true s.m (.incoming h)) ["active"] (if (s.m.ctrl h).isSome then "inc.existing" else "inc.add")
   | ["finish", ht] => do
     let h ← hash? ht
     let r := match s.m.ctrl h with
-      | some c => if c.complete then "dup" else "ok"
+      | some c => if c.complete then "dup" else if !s.m.dl h then "invalid" else "ok"
       | none => "absent"
     fin (KrakenModel.SchedWaiters.step true s.m (.finish h)) [r] ("finish." ++ r ++ (if s.m.stopped then ".stopped" else ""))
   | ["notice", ht, gt] => do
@@ -137,4 +221,23 @@ def machine : Machine := { σ := St, name := "sched", init := fun _ => some {}, 
 
 end C17
 
-def main (args : List String) : IO UInt32 := runMachines [C17.machine] args
+/- machine `schedlive`: started schedulers (real event loop); one-line cases: how many Download calls of each
+   kind were made; every one must return, with the class of result the statement allows for its kind. -/
+namespace C17L
+def step (_ : Unit) (kind : String) (args impl : List String) : Option (Unit × StepOut) :=
+  if kind ≠ "one" then none else do
+  let n (k : String) : Option Nat := (kv? args k).bind (·.toNat?)
+  let known ← n "known"
+  let missing ← n "missing"
+  let cached ← n "cached"
+  let after ← n "after"
+  let cls := [("after:stopped", after), ("cached:ok", cached), ("known:stopped", known), ("missing:notfound", missing)].filter (·.2 > 0)
+  let pf := match kv? impl "hung" with
+    | some "0" => []
+    | some k => [s!"side=impl key=download-never-returned {k} Download calls did not return after Stop"]
+    | none => []
+  pure ((), { obs := ["hung=0", listTok (cls.map fun (k, v) => s!"{k}={v}")], branch := "live", propfails := pf })
+def machine : Machine := { σ := Unit, name := "schedlive", init := fun _ => some (), step := step }
+end C17L
+
+def main (args : List String) : IO UInt32 := runMachines [C17.machine, C17L.machine] args
